@@ -16,7 +16,7 @@ GEN_PROJ = "prqlc/prqlc/src/sql/gen_projection.rs"
 POSTPROCESS = "prqlc/prqlc/src/sql/pq/postprocess.rs"
 
 RLIMIT = 60
-LABELS = ["SS2a", "SS2b", "SS2c", "DD1", "DD2", "DD3", "SS3a", "SS3b"]
+LABELS = ["SS2a", "SS2b", "SS2c", "DD1", "DD2", "DD3", "DD4", "SS3a", "SS3b"]
 FUNCTIONS = ["translate_select_item", "dedup_keep", "cte_sort_columns"]
 
 ASSUMED = [
@@ -30,7 +30,7 @@ ASSUMED = [
      "keys": ["fn opt_name_ne", "fn clone_string", "fn opt_cloned"]},
     {"what": "sqlparser SelectItem / Ident are shims with the real variant and field names; HashSet<Ident> is the shim IdentSet keyed by (value, quote_style); "
              "`idents.iter().any(|ident| seen.insert(KEY))` is insert_any_* : inserts the keys in order until one is new",
-     "keys": ["struct IdentSet", "fn insert", "fn insert_any_exact", "fn insert_any_other", "spec fn other_key", "fn insert_other", "fn clone_ident"]},
+     "keys": ["struct IdentSet", "fn view", "fn insert_one", "fn insert_path", "fn insert_any_part", "fn clone_ident", "fn clone_idents", "fn vec_of_one", "fn unknown_key_insert"]},
     {"what": "Vec<CId>::contains is membership (cid_vec_contains); the sort columns a CTE has to carry are gathered by external, here unconstrained functions "
              "(unit sort_infer SC1-3 is about which columns those are)", "keys": ["fn cid_vec_contains", "fn emitted_sort_columns", "fn extend_sort_columns"]},
     common_std.STR_PREDS_ASSUMPTION,
@@ -109,36 +109,41 @@ pub fn clone_string(s: &String) -> (r: String) ensures r@ == s@, { unimplemented
 #[verifier::external_body]
 pub fn translate_ident_part(ident: String, ctx: &Context) -> (r: sql_ast::Ident) ensures r.value@ == ident@, { unimplemented!() }
 
-// ---- HashSet<Ident> shim
+// ---- HashSet shim: the set of NAMES seen so far; a name is the sequence of (text, quoting) of its parts (one part for a bare identifier or an alias)
+pub type PartKey = (Seq<char>, Option<char>);
+pub open spec fn part_key(i: sql_ast::Ident) -> PartKey { (i.value@, i.quote_style) }
+pub open spec fn name_key(v: Seq<sql_ast::Ident>) -> Seq<PartKey> { v.map_values(|i: sql_ast::Ident| part_key(i)) }
 #[verifier::external_body]
 pub struct IdentSet { _p: u8 }
-pub uninterp spec fn other_key(i: sql_ast::Ident) -> int;
 impl IdentSet {
-    pub uninterp spec fn view(&self) -> Set<(Seq<char>, Option<char>)>;
-    pub uninterp spec fn other(&self) -> Set<int>;
-    #[verifier::external_body]
-    pub fn insert(&mut self, i: sql_ast::Ident) -> (r: bool)
-        ensures r == !old(self).view().contains((i.value@, i.quote_style)), final(self).view() == old(self).view().insert((i.value@, i.quote_style)),
-    { unimplemented!() }
+    pub uninterp spec fn view(&self) -> Set<Seq<PartKey>>;
 }
 #[verifier::external_body]
 pub fn clone_ident(i: &sql_ast::Ident) -> (r: sql_ast::Ident) ensures r == *i, { unimplemented!() }
-// `idents.iter().any(|ident| seen.insert(ident.clone()))`: true iff some identifier of the list was not in the set yet
 #[verifier::external_body]
-pub fn insert_any_exact(seen: &mut IdentSet, idents: &Vec<sql_ast::Ident>) -> (r: bool)
+pub fn clone_idents(v: &Vec<sql_ast::Ident>) -> (r: Vec<sql_ast::Ident>) ensures r@ == v@, { unimplemented!() }
+// HashSet<Ident>::insert: a one-part name
+#[verifier::external_body]
+pub fn insert_one(seen: &mut IdentSet, i: sql_ast::Ident) -> (r: bool)
+    ensures r == !old(seen).view().contains(name_key(seq![i])), final(seen).view() == old(seen).view().insert(name_key(seq![i])),
+{ unimplemented!() }
+// HashSet<Vec<Ident>>::insert: the whole name
+#[verifier::external_body]
+pub fn insert_path(seen: &mut IdentSet, v: Vec<sql_ast::Ident>) -> (r: bool)
+    ensures r == !old(seen).view().contains(name_key(v@)), final(seen).view() == old(seen).view().insert(name_key(v@)),
+{ unimplemented!() }
+// `idents.iter().any(|ident| seen.insert(ident.clone()))`: inserts the parts one by one, as one-part names, until one is new
+#[verifier::external_body]
+pub fn insert_any_part(seen: &mut IdentSet, idents: &Vec<sql_ast::Ident>) -> (r: bool)
     ensures
-        r == (exists|i: int| 0 <= i < idents@.len() && !old(seen).view().contains(((#[trigger] idents@[i]).value@, idents@[i].quote_style))),
-        forall|k: (Seq<char>, Option<char>)| old(seen).view().contains(k) ==> final(seen).view().contains(k),
-{ unimplemented!() }
-// the same with a key other than the identifier itself: the key function is unknown to the proof
-#[verifier::external_body]
-pub fn insert_any_other(seen: &mut IdentSet, idents: &Vec<sql_ast::Ident>) -> (r: bool)
-    ensures r == (exists|i: int| 0 <= i < idents@.len() && !old(seen).other().contains(other_key(#[trigger] idents@[i]))),
+        r == (exists|i: int| 0 <= i < idents@.len() && !old(seen).view().contains(name_key(seq![#[trigger] idents@[i]]))),
+        forall|k: Seq<PartKey>| old(seen).view().contains(k) ==> final(seen).view().contains(k),
 { unimplemented!() }
 #[verifier::external_body]
-pub fn insert_other(seen: &mut IdentSet, i: &sql_ast::Ident) -> (r: bool)
-    ensures r == !old(seen).other().contains(other_key(*i)),
-{ unimplemented!() }
+pub fn vec_of_one(i: sql_ast::Ident) -> (r: Vec<sql_ast::Ident>) ensures r@ == seq![i], { unimplemented!() }
+// a decision taken with a key function the proof knows nothing about
+#[verifier::external_body]
+pub fn unknown_key_insert(seen: &mut IdentSet) -> (r: bool) { unimplemented!() }
 
 #[verifier::external_body]
 pub fn cid_vec_contains(v: &Vec<rq::CId>, c: &rq::CId) -> (r: bool) ensures r == v@.contains(*c), { unimplemented!() }
@@ -189,36 +194,56 @@ def build(X):
     dd.rewrites.append({"rule": "slice", "what": "body of the closure passed to items.retain() wrapped as fn dedup_keep(select_item, seen) -> keep; "
                         "the iteration of `retain` itself is dropped"})
 
-    def call_extent(text, start_lit):
-        """(start, end, inner) of the call whose text starts with start_lit (which ends with the opening parenthesis)"""
-        p0 = text.find(start_lit)
-        if p0 < 0:
-            return None
-        toks = code_tokens(text[p0 + len(start_lit) - 1:])
-        close = match_brace(text[p0 + len(start_lit) - 1:], toks, 0, "(", ")")
-        end = p0 + len(start_lit) - 1 + toks[close][2]
-        return p0, end, text[p0 + len(start_lit):end - 1]
-
-    ce = call_extent(body, "idents.iter().any(")
-    if ce is None:
-        raise ExtractionError("deduplicate_select_items: `idents.iter().any(..)` not recognised")
-    exact = " ".join(ce[2].split()) == "|ident| seen.insert(ident.clone())"
-    body = body[:ce[0]] + ("insert_any_exact(seen, idents)" if exact else "insert_any_other(seen, idents)") + body[ce[1]:]
-    ma = re.search(r"(SelectItem::ExprWithAlias \{ alias, \.\. \} => )(.*?)(,\s*\n)", body, re.S)
-    if not ma:
-        raise ExtractionError("deduplicate_select_items: ExprWithAlias arm not recognised")
-    exact_a = " ".join(ma.group(2).split()) == "seen.insert(alias.clone())"
-    body = body[:ma.start(2)] + ("seen.insert(clone_ident(alias))" if exact_a else "insert_other(seen, alias)") + body[ma.end(2):]
-    dd.rewrites.append({"rule": "R5", "what": "`idents.iter().any(|ident| seen.insert(KEY))` -> insert_any_exact (KEY = ident.clone()) or insert_any_other "
-                        "(any other key: unknown to the proof); `seen.insert(alias.clone())` likewise"})
+    # the set operations, whatever the key is: the parts one by one (HashSet<Ident>) or the whole name (HashSet<Vec<Ident>>)
+    rules = [(r"idents\.iter\(\)\.any\(\|ident\| seen\.insert\(ident\.clone\(\)\)\)", "insert_any_part(seen, idents)"),
+             (r"seen\.insert\(idents\.clone\(\)\)", "insert_path(seen, clone_idents(idents))"),
+             (r"seen\.insert\(vec!\[alias\.clone\(\)\]\)", "insert_path(seen, vec_of_one(clone_ident(alias)))"),
+             (r"seen\.insert\(alias\.clone\(\)\)", "insert_one(seen, clone_ident(alias))")]
+    n_rw = 0
+    for pat, rep in rules:
+        body, k = re.subn(pat, rep, body)
+        n_rw += k
+    # an arm that decides with anything else (another key function, a helper closure defined outside the slice): a key the proof knows nothing about
+    def _arm_value(text, arm_pat):
+        ma = re.search(arm_pat + r"\s*=>\s*", text)
+        if not ma:
+            raise ExtractionError("deduplicate_select_items: arm `%s` not recognised" % arm_pat)
+        rest = text[ma.end():]
+        if rest.lstrip().startswith("{"):
+            toks = code_tokens(rest)
+            e = toks[match_brace(rest, toks, 0)][2]
+        else:
+            depth, e = 0, None
+            for k, ch in enumerate(rest):
+                if ch in "([{":
+                    depth += 1
+                elif ch in ")]}":
+                    depth -= 1
+                    if depth < 0:
+                        e = k
+                        break
+                elif ch == "," and depth == 0:
+                    e = k
+                    break
+        return ma.end(), ma.end() + e
+    known = r"^\s*\{?\s*(//[^\n]*\n\s*)*(insert_any_part|insert_path|insert_one)\((?:[^()]|\((?:[^()]|\([^()]*\))*\))*\)\s*\}?\s*$"
+    for arm_pat in (r"SelectItem::UnnamedExpr\(sql_ast::Expr::CompoundIdentifier\(idents\)\)", r"SelectItem::ExprWithAlias \{ alias, \.\. \}"):
+        a0, a1 = _arm_value(body, arm_pat)
+        if not re.match(known, body[a0:a1], re.S):
+            dd.rewrites.append({"rule": "R5", "what": "arm `%s`: its value `%s` is not one of the known set operations -> unknown_key_insert(seen) (any answer, any change of the set)" % (
+                arm_pat.replace("\\", ""), " ".join(body[a0:a1].split())[:120])})
+            body = body[:a0] + "{ unknown_key_insert(seen) }" + body[a1:]
+    dd.rewrites.append({"rule": "R5", "what": "%d HashSet operation(s) on `seen` -> insert_any_part / insert_path / insert_one (shims over the set of names seen)" % n_rw})
     body = body.replace("sql_ast::Expr::CompoundIdentifier(idents)", "idents")
     dd.text = ("pub fn dedup_keep(select_item: &SelectItemView, seen: &mut IdentSet) -> (keep: bool)\n"
                "    ensures\n"
-               "        // C05: a selected column is dropped only when it is an exact duplicate (same text, same quoting) of one kept before\n"
-               "        (!keep && select_item is UnnamedExpr) ==> forall|i: int| 0 <= i < select_item->UnnamedExpr_0@.len()\n"
-               "            ==> old(seen).view().contains(((#[trigger] select_item->UnnamedExpr_0@[i]).value@, select_item->UnnamedExpr_0@[i].quote_style)), // @DD1\n"
-               "        (!keep && select_item is ExprWithAlias) ==> old(seen).view().contains((select_item->ExprWithAlias_alias.value@, select_item->ExprWithAlias_alias.quote_style)), // @DD2\n"
+               "        // C05: a selected column is dropped only when the SAME (qualified) name - same parts, same quoting - was selected before: `b.a` is not a duplicate\n"
+               "        // of `a.x` and `b.y` just because `b` and `a` have been seen\n"
+               "        (!keep && select_item is UnnamedExpr) ==> old(seen).view().contains(name_key(select_item->UnnamedExpr_0@)), // @DD1\n"
+               "        (!keep && select_item is ExprWithAlias) ==> old(seen).view().contains(name_key(seq![select_item->ExprWithAlias_alias])), // @DD2\n"
                "        (select_item is Other) ==> keep, // @DD3\n"
+               "        // a name that is kept is remembered, so that its repetition is dropped\n"
+               "        (keep && select_item is UnnamedExpr) ==> final(seen).view().contains(name_key(select_item->UnnamedExpr_0@)), // @DD4\n"
                "{\n    " + body.replace("SelectItem::UnnamedExpr(idents)", "SelectItemView::UnnamedExpr(idents)")
                .replace("SelectItem::ExprWithAlias {", "SelectItemView::ExprWithAlias {") + "\n}\n")
     view = ("// what the closure looks at: a compound identifier's parts, or an alias; everything else is `Other`\n"
@@ -252,3 +277,53 @@ def build(X):
     cte_shim = ("#[verifier::external_body] pub fn emitted_sort_columns() -> Vec<ColumnSort<rq::CId>> { unimplemented!() }\n"
                 "#[verifier::external_body] pub fn extend_sort_columns(v: &mut Vec<ColumnSort<rq::CId>>, w: &Vec<ColumnSort<rq::CId>>) { unimplemented!() }\n")
     return PRELUDE + model + tsi.text + "\n" + view + dd.text + "\n" + cte_shim + then_it.text + "\n} // verus!\nfn main() {}\n"
+
+
+# ----------------------------------------------------------------------------- replay on the real compiler
+SETUP = ("create table a(id integer, x integer, t integer); insert into a values (1, 10, 7), (2, 20, 8);"
+         "create table b(id integer, y integer, a integer, t integer); insert into b values (1, 100, 5, 6), (2, 200, 9, 4);")
+# the number and the values of the selected columns: nothing that was asked for is dropped, a repeated name is selected once
+CASES = [
+    ("from a\njoin b (==id)\nselect {a.x, b.y, b.a}\nsort x\n", [(10, 100, 5), (20, 200, 9)]),
+    ("from a\njoin b (==id)\nselect {a.x, b.y, t = 1}\nsort x\n", [(10, 100, 1), (20, 200, 1)]),
+    ("from a\njoin b (==id)\nselect {a.id, a.x, a.id}\nsort x\n", [(1, 10), (2, 20)]),
+    ("from a\njoin b (==id)\nselect {a.t, b.t}\nsort {b.t}\n", [(8, 4), (7, 6)]),
+    # names that differ by letter case only are two columns (three values per row)
+    ("from a\nselect {id, x, X = t}\nsort id\n", [(1, 10, 7), (2, 20, 8)]),
+    ("from a\njoin b (==id)\nselect {a.x, a.id, ID = b.y}\nsort x\n", [(10, 1, 100), (20, 2, 200)]),
+]
+
+
+def _try(src, exp):
+    import replaylib
+    ok, sql = replaylib.compile_prql(src, "sql.sqlite")
+    if not ok:
+        return {"input": src, "expected": [list(r) for r in exp], "observed": sql[:300], "failing": True, "replay_kind": "rows"}
+    ok2, rows = replaylib.sqlite_rows(SETUP, sql)
+    rows = [tuple(r) for r in rows] if ok2 else rows
+    return {"input": src, "expected": [list(r) for r in exp], "observed": [list(r) for r in rows] if ok2 else "sqlite error: %s\n%s" % (rows, sql[:300]), "failing": (not ok2) or rows != exp,
+            "replay_kind": "rows", "sql": sql}
+
+
+def replay(failure):
+    for src, exp in CASES:
+        r = _try(src, exp)
+        if r["failing"]:
+            return r
+    return {"failing": False}
+
+
+def rerun(doc):
+    return _try(doc["input"], [tuple(r) for r in doc["expected"]])
+
+
+SWEEP_DOC = "joins whose selected columns are named like a relation alias, or repeat a name: compiled by the real prqlc and executed on SQLite - every requested column arrives, once"
+
+
+def sweep():
+    out = []
+    for src, exp in CASES:
+        r = _try(src, exp)
+        r["obligation"] = "select_shape.DD1"
+        out.append(r)
+    return out
